@@ -138,6 +138,14 @@ pub fn run(ops: &str, out: &mut impl Write, orc: &mut impl Write) {
                         Ok(Ok(p)) => Some(p),
                         _ => None,
                     };
+                    // the verdict must not depend on how the reader chunks the same bytes
+                    let short = match catch_unwind(AssertUnwindSafe(|| PDU::decode(&mut crate::util::Dribble::new(&frame)))) {
+                        Ok(Ok(p)) => Some(p),
+                        _ => None,
+                    };
+                    if short.as_ref().map(|p| p.clone().encode()) != original.as_ref().map(|p| p.clone().encode()) {
+                        writeln!(orc, "FAIL C15 case={id} op={i} the unaltered encoding {} is judged differently when the reader delivers it in short reads (accepted from a slice: {}, in short reads: {})", t[1], original.is_some(), short.is_some()).unwrap();
+                    }
                     // the unaltered frame must be accepted, and as the PDU whose encoding it is
                     let reenc_ok = original.as_ref().map_or(false, |p| p.clone().encode() == frame);
                     let o = if original.is_none() {
